@@ -88,7 +88,7 @@ def tolerance(cls, t_rel, d_rel, near="surface"):
         if t_rel < 1e-2 * d_rel and cls in FAR_ALIGNED_UNCHECKED:
             # far away AND within a narrow cone / wedge around the prolongation of a special set (axis, edge line,
             # face plane): both documented weaknesses at once; the deviations there are erratic (1e-4 .. 1e5) and
-            # no envelope can be calibrated - not checked, counted under 'bucket_not_checked'
+            # no envelope can be calibrated: only the gross check of run_case applies
             return float("inf")
         v = _nearest_bucket(tab.get("d", {}).get(al, {}), d_bucket(d_rel))
     else:
